@@ -74,7 +74,9 @@ func (c *gen) validOf(kind string) []byte {
 	case "icmp":
 		return c.l2(0x0800, fr.IP(c.ipo(1), c.icmpMsg()))
 	}
-	f := fr.Cat(fr.Eth(c.g.MAC(), c.g.MAC(), 0x0806), c.arpBody(6, 4, 20))
+	body := c.arpBody(6, 4, 20)
+	copy(body[8:14], c.g.SenderMAC())
+	f := fr.Cat(fr.Eth(c.g.MAC(), c.g.MAC(), 0x0806), body)
 	if c.g.R.Bool() {
 		f = fr.Pad(f, 60)
 	}
@@ -428,6 +430,24 @@ func (c *gen) fixedSequences() []seq {
 		}
 		return out
 	}
+	// vendor lookup over a history: a sender with a registered OUI, then a locally administered and a random one
+	withMAC := func(m []byte) []byte {
+		body := c.arpBody(6, 4, 20)
+		copy(body[8:14], m)
+		return fr.Cat(fr.Eth(c.g.MAC(), c.g.MAC(), 0x0806), body)
+	}
+	oui := fr.OUIs()
+	reg := func() []byte {
+		p := oui[c.g.R.Intn(len(oui))]
+		return append(append([]byte{}, p[:]...), c.g.R.Bytes(3)...)
+	}
+	local := func() []byte {
+		m := c.g.R.Bytes(6)
+		m[0] = m[0]&^1 | 2
+		return m
+	}
+	add("arp-oui-then-local", withMAC(reg()), withMAC(local()), withMAC(reg()), withMAC(c.g.R.Bytes(6)))
+	add("arp-local-then-oui", withMAC(local()), withMAC(reg()), withMAC(local()))
 	z := fr.Cat(fr.Eth(c.g.MAC(), c.g.MAC(), 0x0806), fr.ARP(fr.ARPOpt{HType: 1, PType: 0x0800, HLen: 0, PLen: 0, Op: 2}))
 	add("arp-zero-sizes-22", z)
 	add("arp-zero-sizes-padded", fr.Pad(fr.Exact(z), 60))
